@@ -1609,9 +1609,22 @@ impl Gen {
     }
 
     fn let_stmt(&mut self, d: u32, out: &mut Vec<Stmt>) {
-        let ty = self.value_ty(2);
-        let annotate = self.rng.chance(1, 2) || !self.self_typed_possible(&ty);
-        let init = self.expr(&ty, d, annotate);
+        // now and then the type of something that is already visible (a parameter, a local), and
+        // mostly that very value as the initialiser: a copy under a type annotation of its own
+        let vis: Vec<VarInfo> = self.visible().into_iter().filter(|v| !matches!(v.ty, Ty::Unit | Ty::Param(_) | Ty::TrkZ) && v.name != "fuel" && !v.name.starts_with("cnt")).collect();
+        let copy_of = if !vis.is_empty() && self.rng.chance(1, 6) { Some(vis[self.rng.usize(vis.len())].clone()) } else { None };
+        let ty = match &copy_of {
+            Some(v) => v.ty.clone(),
+            None => self.value_ty(2),
+        };
+        let annotate = self.rng.chance(1, 2) || !self.self_typed_possible(&ty) || (copy_of.is_some() && self.rng.chance(2, 3));
+        let init = match &copy_of {
+            Some(v) if self.rng.chance(3, 4) => {
+                self.tag("stmt:let:copy-of-visible".into());
+                Expr::var(&v.name, v.ty.clone())
+            }
+            _ => self.expr(&ty, d, annotate),
+        };
         // occasionally shadow a name from an outer scope
         let outer: Vec<String> = if self.scopes.len() > 1 {
             self.scopes[..self.scopes.len() - 1]
@@ -1634,7 +1647,12 @@ impl Gen {
         };
         self.tag(format!("stmt:let:{}", if annotate { "annotated" } else { "inferred" }));
         out.push(Stmt::Let(name.clone(), if annotate { Some(ty.clone()) } else { None }, init));
-        self.declare(&name, ty, true);
+        self.declare(&name, ty.clone(), true);
+        // the copy is looked at right away (all of its leaves)
+        if copy_of.is_some() && self.rng.chance(2, 3) {
+            let depth = if self.cfg.observe_all { 3 } else { 2 };
+            self.observe(Expr::var(&name, ty), depth, out);
+        }
     }
 
     fn assign_stmt(&mut self, d: u32, out: &mut Vec<Stmt>) -> bool {
@@ -2156,6 +2174,17 @@ impl Gen {
             let depth = self.cfg.max_depth;
             let ns = 1 + self.rng.usize(self.cfg.max_stmts);
             let mut stmts = Vec::new();
+            // a parameter whose type is a written-out anonymous record is copied into a local
+            // that spells the type again, and the copy is looked at field by field
+            for (pn, pt) in params.clone() {
+                if matches!(&pt, Ty::Anon(fs) if fs.len() >= 2) && self.rng.chance(2, 3) {
+                    let c = self.fresh("v");
+                    stmts.push(Stmt::Let(c.clone(), Some(pt.clone()), Expr::var(&pn, pt.clone())));
+                    self.declare(&c, pt.clone(), true);
+                    self.observe(Expr::var(&c, pt.clone()), 3, &mut stmts);
+                    self.tag("stmt:let:copy-of-anon-record-parameter".into());
+                }
+            }
             for _ in 0..ns {
                 self.stmt(depth, &mut stmts);
             }
